@@ -1,11 +1,18 @@
-(* Proofs/MLPinned.v — the behaviour of MultiLine::sink BEFORE the repair of the "dangling match"
-   defect, pinned as a definition so that the finding stays documented by a theorem
-   (Props/C13_MultiLine.v multi_line_eq_ref_pinned_refuted).
+(* Proofs/MLPinned.v — the behaviour of MultiLine::sink and MultiLine::sink_matched_inverted BEFORE
+   the repairs of two defects, pinned as definitions so that the findings stay documented by
+   theorems (Props/C13.v multi_line_eq_ref_pinned_refuted, multi_line_inverted_pinned_refuted).
+   1. the "dangling match":
    Pre-repair, MultiLine::sink kept the EMPTY line range of a match at the position right after the
    final line terminator as its pending range; the final flush of MultiLine::run then called
    sink_context for it — delivering before-context lines — and only afterwards sink_matched, which
    refuses an empty range:   printf 'a\nb\nc\n' | rg -U -B1 'a|\z'   printed line 3 as context of
-   no match.  The repaired MultiLine::sink (Model/Glue.v ml_sink) drops such a match. *)
+   no match.  The repaired MultiLine::sink (Model/Glue.v ml_sink) drops such a match.
+   2. inversion: pre-repair, sink_matched_inverted resumed the search at the END OF THE LAST LINE of
+   a match, so a following match starting on that line after the first one's end was never found:
+     printf 'a\nbb\nc\n' | rg -U -v 'a\nb|b\nc'   reported line 3, which `rg -U` reports as matching.
+   The repaired function keeps looking for matches that start before the end of the excluded
+   lines (Model/Glue.v ml_inv_extend); Spec/MultiLineSpec.v inv_flags_pinned describes the old
+   flags. *)
 From RG Require Import Base.Bytes Model.Lines Model.SearcherCore Model.Glue.
 
 Section Pinned.
@@ -13,9 +20,23 @@ Section Pinned.
   Variable M : matcher.
   Variable reply_of : nat -> reply.
 
+  (* MultiLine::sink_matched_inverted() as it was: advance(&line) *)
+  Definition ml_sink_matched_inverted_pinned (m : ml) (s : bytes) : ml_outcome :=
+    let c := ml_core m in
+    let '(rs, re, c) :=
+      match ml_find M c s with
+      | None => (pos c, length s, set_pos c (length s))
+      | Some (a, b) =>
+        let (ls, le) := locate (lt_byte (c_lt cfg)) s a b in
+        (pos c, ls, ml_advance c s ls le)
+      end in
+    if Nat.leb re rs then MOK true {| ml_core := c; ml_last := ml_last m |} else
+    ml_lift (ml_sink_context cfg reply_of c s rs) (ml_last m)
+            (fun c => ml_inv_loop cfg reply_of (ml_last m) (S (length s)) c s rs re).
+
   (* MultiLine::sink() as it was: no test for an empty line range *)
   Definition ml_sink_pinned (m : ml) (s : bytes) : ml_outcome :=
-    if c_invert cfg then ml_sink_matched_inverted cfg M reply_of m s else
+    if c_invert cfg then ml_sink_matched_inverted_pinned m s else
     let c := ml_core m in
     match ml_find M c s with
     | None => MOK true {| ml_core := set_pos c (length s); ml_last := ml_last m |}
